@@ -28,12 +28,15 @@ def batches(tier, seed):
         cases.append(c)
     yield 'g-conn', cases
     pc = []
-    for i in range(24 if tier == 'quick' else 400):
+    for i in range(80 if tier == 'quick' else 1200):
         for _try in range(60):
             c = dsgcase.gen_sel(rng, max_nodes=6, max_choices=2, n_incompat=0)
             if not dsgcase.guards(c):
                 break
-        c = conndrive.add_connection(rng, c, n_choices=1, group_prob=0.0 if i % 4 else 0.25)
+        # half of the cases keep every connector on a permanent node (outside the known-finding classes K24/K25, where any
+        # mismatch is a new violation); one in three has two connection choices
+        c = conndrive.add_connection(rng, c, n_choices=2 if i % 3 == 2 else 1, group_prob=0.0 if i % 4 else 0.25,
+                                     permanent_only=(i % 2 == 0))
         c['_i'] = i
         c['_proc'] = True
         pc.append(c)
@@ -93,7 +96,7 @@ def match_known(case, fail, known):
                 return k
             if k.get('id') == 'K24' and cl.startswith('decode-raises:ValueError') and 'Node not part of connection choice' in det:
                 return k
-            if k.get('id') == 'K25' and cl in ('two-rows-one-architecture', 'architectures-differ', 'n-valid-designs-differs'):
+            if k.get('id') == 'K25' and cl in ('two-rows-one-architecture', 'architectures-differ', 'n-valid-designs-differs') and '[connectors=conditional]' in det:
                 return k
             if k.get('id') == 'K26' and cl.startswith('processor-raises:ValueError') and 'max() iterable argument is empty' in det:
                 return k
